@@ -41,11 +41,9 @@ def make_components(E, T, spec):
         st = SHAPES[shape](c, A)
         if shape == 'atom':
             # element density is symbolic on the private table
-            if dk:
-                f = formulas.formula(A[0])
-            else:
-                f = formulas.formula(st)
-                f.density = None
+            # a single-atom formula always carries its atom's density (formula() restores the default on copy),
+            # so "unknown density" is not expressible for this shape
+            f = formulas.formula(A[0])
         else:
             f = formulas.formula(st, density=E.real('rho%d' % i, lo=0, lo_open=True, hi=25)) if dk else formulas.formula(st)
         if scaled:
@@ -355,30 +353,41 @@ def _repeat_mass_case(E):
         E.fact('has_total_mass', False)
 
 
-def _nested_string_case(E):
-    """'c1 vol% (c2 wt% A@d // B@d)@d3 // C@d'"""
-    from periodictable import formulas
-    sp.reset()
-    T, _, _ = cm.sym_pool(E, 'c11s', [k for ks in COMP_KEYS[:3] for k in ks], neutron=False, natural=True, density=True)
-    parts = _parts(E, T, 3, [True, 'element', True])
-    p1 = sp.Lit(E, 'pct_outer', 'whole', hi=99)
-    p2 = sp.Lit(E, 'pct_inner', 'fract', hi=99)
-    d3 = sp.Lit(E, 'rho_inner', 'fract', hi=25)
-    E.assume(p1.value < 100)
-    E.assume(p2.value < 100)
-    txt = '%svol%% (%s wt%% %s // %s)@%s // %s' % (p1.text, p2.text, parts[0]['text'], parts[1]['text'], d3.text, parts[2]['text'])
-    E.note(txt)
-    with sp.parsing(E):
-        r = formulas.formula(txt, table=T)
-    inner = formulas.mix_by_weight(parts[0]['f'], p2.value, parts[1]['f'], 100 - p2.value, density=d3.value)
-    innerc = dict(f=inner, unique=parts[0]['unique'], known=True)
-    check_mix(E, 'nested', r, [innerc, parts[2]], [p1.value, 100 - p1.value], 'volume')
-    # and the inner proportions survive
-    a, b = parts[0]['unique'], parts[1]['unique']
-    ma, mb = comp_mass(parts[0]['f']), comp_mass(parts[1]['f'])
-    na = r.atoms[a] / parts[0]['f'].atoms[a]
-    nb = r.atoms[b] / parts[1]['f'].atoms[b]
-    E.eq('nested.inner_mass_ratio', na * ma * (100 - p2.value), nb * mb * p2.value)
+def _nested_string_case(suffix):
+    """'c1 vol% (c2 wt% A@d // B@d)@d3<suffix> // C@d' : the group's density tag may be isotopic ('' / 'i') or natural ('n');
+    component B contains deuterium, so the two differ"""
+    def h(E):
+        from periodictable import formulas
+        sp.reset()
+        T, _, _ = cm.sym_pool(E, 'c11s', [k for ks in COMP_KEYS[:3] for k in ks], neutron=False, natural=True, density=True)
+        parts = _parts(E, T, 3, [True, True, True])
+        p1 = sp.Lit(E, 'pct_outer', 'whole', hi=99)
+        p2 = sp.Lit(E, 'pct_inner', 'fract', hi=99)
+        d3 = sp.Lit(E, 'rho_inner', 'fract', hi=25)
+        E.assume(p1.value < 100)
+        E.assume(p2.value < 100)
+        txt = '%svol%% (%s wt%% %s // %s)@%s%s // %s' % (p1.text, p2.text, parts[0]['text'], parts[1]['text'], d3.text, suffix, parts[2]['text'])
+        E.note(txt)
+        with sp.parsing(E):
+            r = formulas.formula(txt, table=T)
+        if suffix == 'n':
+            inner = formulas.mix_by_weight(parts[0]['f'], p2.value, parts[1]['f'], 100 - p2.value, natural_density=d3.value)
+        else:
+            inner = formulas.mix_by_weight(parts[0]['f'], p2.value, parts[1]['f'], 100 - p2.value, density=d3.value)
+        innerc = dict(f=inner, unique=parts[0]['unique'], known=True)
+        check_mix(E, 'nested', r, [innerc, parts[2]], [p1.value, 100 - p1.value], 'volume')
+        # and the inner proportions survive
+        a, b = parts[0]['unique'], parts[1]['unique']
+        ma, mb = comp_mass(parts[0]['f']), comp_mass(parts[1]['f'])
+        na = r.atoms[a] / parts[0]['f'].atoms[a]
+        nb = r.atoms[b] / parts[1]['f'].atoms[b]
+        E.eq('nested.inner_mass_ratio', na * ma * (100 - p2.value), nb * mb * p2.value)
+        # the parenthesised group alone, with its tag
+        gtxt = '(%s wt%% %s // %s)@%s%s' % (p2.text, parts[0]['text'], parts[1]['text'], d3.text, suffix)
+        with sp.parsing(E):
+            g = formulas.formula(gtxt, table=T)
+        E.eq('group_tag_density', g.density, inner.density)
+    return h
 
 
 def cases(tier):
@@ -404,7 +413,7 @@ def cases(tier):
     if th:
         api += [('weight', [('compound', K, Sc), ('atom', K, False), ('group', K, Sc), ('compound', K, False)], None, None),
                 ('volume', [('compound', K, False), ('atom', K, Sc), ('group', K, False), ('compound', K, False)], None, None),
-                ('weight', [('compound', K, False), ('atom', U, False), ('group', K, False)], (0, 2), None),
+                ('weight', [('compound', K, False), ('compound', U, False), ('group', K, False)], (0, 2), None),
                 ('volume', [('compound', K, False), ('atom', K, False), ('group', K, False)], (0, 1, 2), None)]
     for kind, spec, zero, kw in api:
         nm = 'api[%s|%s|zero=%s|kw=%s]' % (kind, ','.join('%s%s%s' % (s[0], '' if s[1] else '?', '*' if s[2] else '') for s in spec), zero, kw)
@@ -429,5 +438,6 @@ def cases(tier):
                           (['nm', 'nm'], ['element', 'element'], 'whole'), (['um', 'nm'], [True, False], None)]:
         out.append(Case('string_layer[%s|%s|rep=%s]' % (','.join(us), dens, rep), _layer_case(us, dens, rep), max_paths=mp, timeout_ms=to))
     out.append(Case('string_repeat_mass', _repeat_mass_case, max_paths=mp, timeout_ms=to))
-    out.append(Case('string_nested', _nested_string_case, max_paths=mp, timeout_ms=to))
+    for suf in ('', 'n', 'i'):
+        out.append(Case('string_nested[@d%s]' % suf, _nested_string_case(suf), max_paths=mp, timeout_ms=to))
     return out
